@@ -81,6 +81,8 @@ impl ToMysqlValue for Val {
 pub enum WOp {
     Start(Arc<Vec<Column>>),
     WriteCol(Val),
+    /// try the first value; if the call is refused, write the second instead
+    WriteColOr(Val, Val),
     EndRow,
     WriteRow(Vec<Val>),
     Finish,
@@ -98,6 +100,7 @@ impl WOp {
         match self {
             WOp::Start(c) => format!("start({})", c.len()),
             WOp::WriteCol(v) => format!("write_col({})", val_short(v)),
+            WOp::WriteColOr(a, b) => format!("write_col({}) or, if refused, write_col({})", val_short(a), val_short(b)),
             WOp::EndRow => "end_row".into(),
             WOp::WriteRow(v) => format!("write_row({})", v.len()),
             WOp::Finish => "finish".into(),
@@ -277,6 +280,13 @@ pub fn run_prog<'a, W: Read + Write>(
                 Ok(St::Done)
             }
             (St::R(mut r), WOp::WriteCol(v)) => r.write_col(v).map(|_| St::R(r)),
+            (St::R(mut r), WOp::WriteColOr(a, b)) => match r.write_col(a) {
+                Ok(()) => Ok(St::R(r)),
+                Err(_) => {
+                    calls.push(CallRes { cb, op: i, res: Err("first alternative refused".into()) });
+                    r.write_col(b).map(|_| St::R(r))
+                }
+            },
             (St::R(mut r), WOp::EndRow) => r.end_row().map(|_| St::R(r)),
             (St::R(mut r), WOp::WriteRow(vs)) => r.write_row(vs.iter()).map(|_| St::R(r)),
             (St::R(r), WOp::Finish) => r.finish().map(|_| St::Done),
